@@ -15,6 +15,16 @@ import (
 	log "github.com/sirupsen/logrus"
 )
 
+// VerifPoint, when set by the verification harness, is called at the marked
+// points (partition.afterPropose, allocator.watch.locked, allocator.unwatch.locked).
+var VerifPoint func(point string, args ...interface{})
+
+func verifPoint(point string, args ...interface{}) {
+	if f := VerifPoint; f != nil {
+		f(point, args...)
+	}
+}
+
 // VerifPartitionSM is a partition's replicated state machine (process /
 // snapshot / processSnapshot over a real index) without a raft group, for the
 // verification harness.
